@@ -6,6 +6,7 @@ import json, glob, os, sys
 rnd, out = int(sys.argv[1]), sys.argv[2]
 V = os.path.dirname(os.path.dirname(os.path.abspath(__file__)))
 FOCUS = {
+ 7: "This round, make the edits as SMALL as you can: ideally one or two changed tokens or lines per seed (a comparison operator, a constant, an operand, a swapped argument, an index expression, a loop bound, an initial value, a condition's polarity, a type of one variable), in the functions the property names or in the helpers, tables and constants they use - edits that survive the existing tests yet give a WRONG RESULT or a PANIC for some valid input (inside the property's stated domain; not only for negative positions, garbage indexes or sizes of 2^31 and more). Before you settle on a seed, check with a brute-force reference that it really changes behaviour inside the domain - many one-token edits in this library are equivalent (`|` vs `^` on disjoint bits, a shortcut threshold, a capacity) and those are worthless. At most one of the three may be larger (a few lines), for instance two cooperating one-token edits in two functions.",
  6: "This round, aim at the ARITHMETIC CORE and at COOPERATING SITES. (a) Slips that keep the shape of the code - the same loops, branches, calls and types - but compute a wrong number for one class of inputs: a wrong constant inside a closed-form expression, a shift/popcount/mask trick that is off for one bit pattern, a carry or correction term dropped between two stages, a table entry or a table-building formula that is wrong for one index, an accumulator initialised or advanced slightly wrongly, `<` vs `<=` where only the boundary value differs. (b) Two or three edits in DIFFERENT functions or files (writer and reader, builder and query, helper and caller, constant and its user) that agree with each other in the common case and disagree for one boundary case. (c) State or configuration dependence: a result that depends on an earlier call, on the build tag, on the word size, on the order of two calls.",
  5: "This round, look especially at what the property's functions DEPEND ON rather than at their main loop: helper functions, package tables and the code that initialises them, constants, type definitions, constructor defaults, the less-travelled branches (error paths, empty/one-element inputs, the last iteration, equal keys, maximum height/width), and pairs of edits in two different places that are each harmless alone.",
 }
@@ -35,7 +36,7 @@ WHAT MAKES A GOOD SEED (read carefully):
 * {FOCUS.get(rnd, "")}
 * The three seeds must be DIFFERENT in kind from each other and from the ideas below, which earlier engineers already delivered for this property ("already taken" - do not repeat them or close variants; think about parts of the property, its anchors, and input classes they did not touch):
 {chr(10).join(taken)}
-* Prefer SMALL, LOCAL, SUBTLE edits over rewrites: off-by-one in a bound or guard, a changed comparison, a wrong-but-plausible constant, an operand swap, a mask/shift mix-up, a missing case in a new branch, a condition hoisted or merged incorrectly, an error path that returns the wrong thing, a wrong rounding, an order-of-operations slip, sign/width confusion. At least TWO of your three seeds must be such small edits (a handful of changed lines) that keep the overall code structure intact; at most one may be a larger restructuring. Avoid seeds that only matter for inputs of 2^31 bits / 256 MiB and more.
+* (General guidance, superseded by the round focus above where they differ.) Prefer SMALL, LOCAL, SUBTLE edits over rewrites: off-by-one in a bound or guard, a changed comparison, a wrong-but-plausible constant, an operand swap, a mask/shift mix-up, a missing case in a new branch, a condition hoisted or merged incorrectly, an error path that returns the wrong thing, a wrong rounding, an order-of-operations slip, sign/width confusion. At least TWO of your three seeds must be such small edits (a handful of changed lines) that keep the overall code structure intact; at most one may be a larger restructuring. Avoid seeds that only matter for inputs of 2^31 bits / 256 MiB and more.
 * Each seed breaks THIS property (a user-visible wrong result / panic / corrupted state as stated in the property), not merely some other behaviour.
 
 DELIVERABLE, for k = 1,2,3, in {out}/{pid}/out/seed<k>/ :
